@@ -57,13 +57,22 @@ def finalErrs (S : Scheme) (r : Record) (op : Op S) (pk : S.PK) (oracle : Option
     if signerCalled && n.size > MAX_ENR_SIZE then ["ExceedsMaxSize"] else []
   | _, _ => []
 
+/-- the size of the result estimated before signing (signature as long as the present one) -/
+def estimateErrs (S : Scheme) (r : Record) (op : Op S) (pk : S.PK) : List String :=
+  match prepareG S (recLow r) op pk false with
+  | .ok p =>
+    let n : Record := { p.enr with sig := r.sig, nodeId := nodeIdOf S pk }
+    if n.size > MAX_ENR_SIZE then ["ExceedsMaxSize"] else []
+  | .error _ => []
+
 /-- `admissibleErrs` in terms of its parts. -/
 theorem admissibleErrs_eq (d : DS) (r : Record) (op : Op d.S) (pk : d.S.PK) (oracle : Option Bytes)
     (sc sf : Bool) :
     admissibleErrs d r op pk oracle sc sf =
-      if !(valueErrs op).isEmpty then valueErrs op ++ bypassCauses d.S r op pk ++ seqMaxErrs r op ++ faultErrs sf
+      if !(valueErrs op).isEmpty then valueErrs op ++ bypassCauses d.S r op pk ++ seqMaxErrs r op ++ faultErrs sf ++
+        openCauses d.S op pk
       else preErrs d.S r op pk ++ finalErrs d.S r op pk oracle sc ++ seqMaxErrs r op ++
-        faultErrs sf := by
+        faultErrs sf ++ estimateErrs d.S r op pk ++ openCauses d.S op pk := by
   cases op <;> rfl
 
 /-! ### membership in the parts -/
@@ -74,8 +83,8 @@ theorem mem_admissible_of_fault (d : DS) (r : Record) (op : Op d.S) (pk : d.S.PK
   rw [admissibleErrs_eq]
   have hf : "SigningError" ∈ faultErrs true := by simp [faultErrs]
   split
-  · exact List.mem_append_right _ hf
-  · exact List.mem_append_right _ hf
+  · exact List.mem_append_left _ (List.mem_append_right _ hf)
+  · exact List.mem_append_left _ (List.mem_append_left _ (List.mem_append_right _ hf))
 
 theorem mem_admissible_of_valueErrs (d : DS) (r : Record) (op : Op d.S) (pk : d.S.PK)
     (oracle : Option Bytes) (sc sf : Bool) (s : String) (h : s ∈ valueErrs op) :
@@ -86,21 +95,21 @@ theorem mem_admissible_of_valueErrs (d : DS) (r : Record) (op : Op d.S) (pk : d.
     | nil => rw [hv] at h; simp at h
     | cons a t => rfl
   rw [if_pos hne]
-  exact List.mem_append_left _ (List.mem_append_left _ (List.mem_append_left _ h))
+  exact List.mem_append_left _ (List.mem_append_left _ (List.mem_append_left _ (List.mem_append_left _ h)))
 
 theorem mem_admissible_of_preErrs (d : DS) (r : Record) (op : Op d.S) (pk : d.S.PK)
     (oracle : Option Bytes) (sc sf : Bool) (s : String) (hv : valueErrs op = [])
     (h : s ∈ preErrs d.S r op pk) : s ∈ admissibleErrs d r op pk oracle sc sf := by
   rw [admissibleErrs_eq, hv]
   simp only [List.isEmpty_nil, Bool.not_true, Bool.false_eq_true, if_false]
-  exact List.mem_append_left _ (List.mem_append_left _ (List.mem_append_left _ h))
+  exact List.mem_append_left _ (List.mem_append_left _ (List.mem_append_left _ (List.mem_append_left _ (List.mem_append_left _ h))))
 
 theorem mem_admissible_of_finalErrs (d : DS) (r : Record) (op : Op d.S) (pk : d.S.PK)
     (oracle : Option Bytes) (sc sf : Bool) (s : String) (hv : valueErrs op = [])
     (h : s ∈ finalErrs d.S r op pk oracle sc) : s ∈ admissibleErrs d r op pk oracle sc sf := by
   rw [admissibleErrs_eq, hv]
   simp only [List.isEmpty_nil, Bool.not_true, Bool.false_eq_true, if_false]
-  exact List.mem_append_left _ (List.mem_append_left _ (List.mem_append_right _ h))
+  exact List.mem_append_left _ (List.mem_append_left _ (List.mem_append_left _ (List.mem_append_left _ (List.mem_append_right _ h))))
 
 /-! ### value errors: the driver's list against the model's loop -/
 
